@@ -383,4 +383,71 @@ theorem percent_byte_plain (b : UInt8) : shouldEscape b = false → (b == 0x25) 
   apply byte_cases
   decide
 
+/-! ## sequences of codec calls -/
+
+theorem runCalls_append {M} (c : Codec M) (a b : List (Call M)) (st : CallState M) :
+    runCalls c (a ++ b) st = runCalls c b (runCalls c a st) := by
+  induction a generalizing st with
+  | nil => rfl
+  | cons x t ih => simp only [List.cons_append, runCalls, ih]
+
+theorem callStep_bufs {M} (c : Codec M) (st : CallState M) (call : Call M) :
+    ∃ b, (callStep c st call).bufs = st.bufs ++ [b] := by
+  cases call with
+  | encode m => exact ⟨_, rfl⟩
+  | decode i => exact ⟨_, rfl⟩
+
+theorem runCalls_bufs_length {M} (c : Codec M) (calls : List (Call M)) (st : CallState M) :
+    (runCalls c calls st).bufs.length = st.bufs.length + calls.length := by
+  induction calls generalizing st with
+  | nil => simp [runCalls]
+  | cons x t ih =>
+    obtain ⟨b, hb⟩ := callStep_bufs c st x
+    simp only [runCalls, ih, hb, List.length_append, List.length_cons, List.length_nil]
+    omega
+
+/-- a call never writes into an earlier result -/
+theorem runCalls_keeps {M} (c : Codec M) (calls : List (Call M)) (st : CallState M) (i : Nat)
+    (hi : i < st.bufs.length) : (runCalls c calls st).bufs[i]? = st.bufs[i]? := by
+  induction calls generalizing st with
+  | nil => rfl
+  | cons x t ih =>
+    obtain ⟨b, hb⟩ := callStep_bufs c st x
+    have hlen : i < (callStep c st x).bufs.length := by rw [hb, List.length_append]; omega
+    rw [runCalls, ih _ hlen, hb, List.getElem?_append_left hi]
+
+theorem callStep_msgs {M} (c : Codec M) (st : CallState M) (call : Call M) :
+    ∃ b, (callStep c st call).msgs = st.msgs ++ [b] := by
+  cases call with
+  | encode m => exact ⟨_, rfl⟩
+  | decode i => exact ⟨_, rfl⟩
+
+theorem runCalls_msgs_length {M} (c : Codec M) (calls : List (Call M)) (st : CallState M) :
+    (runCalls c calls st).msgs.length = st.msgs.length + calls.length := by
+  induction calls generalizing st with
+  | nil => simp [runCalls]
+  | cons x t ih =>
+    obtain ⟨b, hb⟩ := callStep_msgs c st x
+    simp only [runCalls, ih, hb, List.length_append, List.length_cons, List.length_nil]
+    omega
+
+theorem runCalls_msgs_keeps {M} (c : Codec M) (calls : List (Call M)) (st : CallState M) (i : Nat)
+    (hi : i < st.msgs.length) : (runCalls c calls st).msgs[i]? = st.msgs[i]? := by
+  induction calls generalizing st with
+  | nil => rfl
+  | cons x t ih =>
+    obtain ⟨b, hb⟩ := callStep_msgs c st x
+    have hlen : i < (callStep c st x).msgs.length := by rw [hb, List.length_append]; omega
+    rw [runCalls, ih _ hlen, hb, List.getElem?_append_left hi]
+
+/-- the result of an encode call, right after it -/
+theorem runCalls_encode_last {M} (c : Codec M) (pre : List (Call M)) (m : M) :
+    (runCalls c (pre ++ [.encode m]) {}).bufs[pre.length]? = some (strictMarshal c m) := by
+  have hl : (runCalls c pre {}).bufs.length = pre.length := by
+    rw [runCalls_bufs_length]; simp
+  rw [runCalls_append]
+  simp only [runCalls, callStep]
+  rw [List.getElem?_append_right (by omega), hl]
+  simp
+
 end ConfModel.Convert
